@@ -265,7 +265,9 @@ func sharedStateScenario(r *Run) {
 	}
 	oc := RunGatedPool(r, planned.Node, workers, ctl, produce, func(execution.ProduceContext, execution.MetadataMessage) error { return nil }, choose, 200000)
 	r.Sched(strings.Join(schedule, ","))
-	r.AddEvents(nOut)
+	if oc.Finished {
+		r.AddEvents(nOut)
+	}
 	r.FaultN("sink_stall", nStall)
 	if badRow >= 0 && badRow < nB {
 		r.Fault("malformed_row")
@@ -276,7 +278,7 @@ func sharedStateScenario(r *Run) {
 	if oc.Leaked > 0 {
 		r.Probe("goroutines_left_parked_after_run")
 	}
-	r.Log("run returned err=%v finished=%v deadlock=%v steps=%d outputs=%d", errString(oc.Err), oc.Finished, oc.Deadlock, oc.Steps, nOut)
+	r.Log("run returned err=%v finished=%v deadlock=%v steps=%d", errString(oc.Err), oc.Finished, oc.Deadlock, oc.Steps)
 	if oc.Deadlock {
 		r.Violate("C29", "deadlock", attrs, "query neither finished nor has any parked hand-off left (%s)", sql)
 		return
@@ -294,10 +296,10 @@ func sharedStateScenario(r *Run) {
 func nestedPoolScenario(r *Run) {
 	t := r.Tape
 	hdr := t.Block(8)
-	nA := []int{130, 700, 1500, 2300}[hdr.Weighted(2, 3, 3, 1)]
-	if !r.Thorough() && nA > 1500 {
-		nA = 1500
-	}
+	// 9 000 lines = 141 batches, just beyond the 128 parsed batches the consumer's channel holds; 20 000 lines =
+	// 313 batches, beyond that plus the pool's own queue: the sizes at which "how far may the reader run ahead"
+	// starts to matter
+	nA := []int{130, 700, 1500, 2300, 9000, 20000}[hdr.Weighted(4, 6, 6, 2, 1, 1)]
 	nB := 1 + hdr.Draw(3)
 	workers := 1 + hdr.Draw(4)
 	limit := 20 + hdr.Draw(60)
@@ -358,9 +360,11 @@ func nestedPoolScenario(r *Run) {
 	}
 	oc := RunGatedPool(r, planned.Node, workers, ctl, produce, func(execution.ProduceContext, execution.MetadataMessage) error { return nil }, choose, 400000)
 	r.Sched(string(schedule))
-	r.AddEvents(nOut)
+	if oc.Finished {
+		r.AddEvents(nOut)
+	}
 	r.Probe("early_stop_by_limit")
-	r.Log("run returned err=%v finished=%v deadlock=%v steps=%d outputs=%d", errString(oc.Err), oc.Finished, oc.Deadlock, oc.Steps, nOut)
+	r.Log("run returned err=%v finished=%v deadlock=%v steps=%d", errString(oc.Err), oc.Finished, oc.Deadlock, oc.Steps)
 	if oc.Deadlock {
 		r.Violate("C29", "deadlock", attrs, "query neither finished nor has any parked hand-off left: the outer file's parsed batches and the nested lookup starve each other of the shared parser pool (%s, %d workers)", sql, workers)
 		return
@@ -444,13 +448,15 @@ func bigInputEarlyStopScenario(r *Run) {
 	}
 	oc := RunGated(r, planned.Node, ctl, produce, func(execution.ProduceContext, execution.MetadataMessage) error { return nil }, choose, 100000)
 	r.Sched(string(schedule))
-	r.AddEvents(nOut)
+	if oc.Finished {
+		r.AddEvents(nOut)
+	}
 	if stopByError {
 		r.Fault("source_error")
 	} else {
 		r.Probe("early_stop_by_limit")
 	}
-	r.Log("run returned err=%v finished=%v deadlock=%v steps=%d outputs=%d", errString(oc.Err), oc.Finished, oc.Deadlock, oc.Steps, nOut)
+	r.Log("run returned err=%v finished=%v deadlock=%v steps=%d", errString(oc.Err), oc.Finished, oc.Deadlock, oc.Steps)
 	if oc.Deadlock || !oc.Finished {
 		r.Violate("C29", "deadlock", attrs, "the query did not return after it had been stopped early (%s; %d rows still to deliver)", sql, nBig)
 	}
